@@ -86,6 +86,18 @@ def run(data):
             # stripping prefixes never changes the value
             x = Quantity(m, p * u)
             chk("unprefixed", x.unprefixed() == x or m != m)
+            # ordinary bookkeeping on public results (running totals with augmented assignment, scaling in place) cannot change what the
+            # prefixed unit means: the value relations are evaluated again afterwards
+            if not isinstance(m, Decimal):
+                worth = float((1 * (p * u)).unprefixed().magnitude)
+                for start in ((p * u).quantify(), Quantity(1, p * u).unprefixed(), 1 * (p * u), (p * u).quantify()):
+                    t = start
+                    t += Quantity(m, u); t -= Quantity(2, p * u); t *= 3; t /= 7
+                    t = start; t += start; t -= Quantity(1, u)
+                pq = p.quantify(); pq += 1; pq *= 2
+                chk("value-after-accumulating", relclose((1 * (p * u)).unprefixed().magnitude, worth) and relclose(p.quantify(), pv)
+                    and relclose((p * u).quantify().magnitude, worth) and relclose(((m * (p * u)).unprefixed()).magnitude, ((m * pvm) * u).unprefixed().magnitude)
+                    and relclose(Fraction(p.base) ** p.exponent * (Fraction(u.prefix.base) ** u.prefix.exponent if u.prefix.base and not isinstance(u.prefix.exponent, float) else Fraction(worth) / (Fraction(p.base) ** p.exponent)), worth))
             rec["same_base"] = same_base
         except Exception as ex:  # noqa
             rec["err"] = implib.errclass(ex) + ":" + str(ex)[:100]
